@@ -163,6 +163,7 @@ inline type_t verif_create_process_set(type_t t) { return type_t(20000 + t.id); 
 inline type_t verif_create_primitive(kind_t k) { return type_t::create_primitive(k); }
 }
 #include "document_ctors.inc" /* REAL functions, lowered */
+#ifndef C04_BUILDER /* (the C04 kernel brings its own, larger DocumentBuilder) */
 namespace UTAP {
 /* the part of the builder DocumentBuilder::process touches after it resolved the name */
 class DocumentBuilder
@@ -175,6 +176,7 @@ public:
 };
 }
 #include "builder_process.inc" /* REAL: DocumentBuilder::process from the resolved instance on */
+#endif
 
 static Document doc;
 static template_t* T;
@@ -386,6 +388,7 @@ int w08_mapped_count(int i) { std::list<instance_t>* lp; if (g_lsc) lp = &doc.ls
    process object, 3 name is the instance's name, 4 type code, 5 type arity/frame ok, 6 copies unbound/arguments/templ/parameters,
    7 copies the mapping, 8 the instance still owns its own symbol */
 int w08_add_process(void) { instance_t& in = doc.instances.at(0); doc.add_process(in, position_t()); return (int)doc.processes.size(); }
+#ifndef C04_BUILDER
 /* DocumentBuilder::process on the symbol of instance 0; before it no template is marked as used.  what: 0 run, 1 template 0 is
    marked, 2 number of processes */
 int w08_builder_process(int what)
@@ -400,6 +403,7 @@ int w08_builder_process(int what)
     if (what == 1) return t0.is_instantiated ? 1 : 0;
     return (int)doc.processes.size();
 }
+#endif
 int w08_proc(int what)
 {
     instance_t& in = doc.instances.at(0);
